@@ -338,6 +338,25 @@ var witnesses = []fw.Witness{
 		}
 		return ""
 	}},
+	{Prop: "C17", Name: "range-context-held-in-interface-as-key", Run: func() string {
+		v := jet.VarMap{}
+		v.Set("keys", []interface{}{"a", "zz"}).Set("m", map[string]int{"a": 1, "b": 2}).Set("idx", []interface{}{1, 0}).Set("list", []string{"x", "y"})
+		v.Set("byname", map[string]interface{}{"k": "b"})
+		return wout(wone(`{{range keys}}[{{isset(m[.])}}{{ v, ok := m[.] }}{{ok}}]{{end}}|{{range idx}}{{isset(list[.])}}{{list[.]}}{{end}}|{{range byname}}{{isset(m[.])}}{{m[.]}}{{end}}`, v, nil), "[truetrue][falsefalse]|trueytruex|true2")
+	}},
+	{Prop: "C06", Name: "range-context-and-call-result-held-in-interface-as-index", Run: func() string {
+		v := jet.VarMap{}
+		v.Set("keys", []interface{}{"a"}).Set("m", map[string]int{"a": 1}).Set("idx", []interface{}{1}).Set("list", []string{"x", "y", "z"})
+		v.Set("pick", func() interface{} { return "a" }).Set("picki", func() interface{} { return 1 })
+		return wout(wone(`{{range keys}}{{m[.]}}{{end}}|{{range idx}}{{list[.]}}{{list[.:]}}{{list[:.]}}{{end}}|{{m[pick()]}}|{{list[picki()]}}{{list[picki():]}}`, v, nil), "1|y[y z][x]|1|y[y z]")
+	}},
+	{Prop: "C14", Name: "interface-held-values-as-arguments-and-operands", Run: func() string {
+		v := jet.VarMap{}
+		v.Set("keys", []interface{}{"ab"}).Set("nums", []interface{}{2})
+		v.Set("pick", func() interface{} { return "cd" }).Set("picki", func() interface{} { return 3 })
+		v.Set("twice", func(s string) string { return s + s }).Set("dbl", func(i int) int { return 2 * i })
+		return wout(wone(`{{range keys}}{{upper(.)}}{{twice(.)}}{{. | twice}}{{. + "x"}}{{end}}|{{range nums}}{{dbl(.)}}{{. + 1}}{{. * 2}}{{end}}|{{upper(pick())}}{{pick() | twice}}{{pick() + "x"}}|{{dbl(picki())}}{{picki() + 1}}`, v, nil), "ABabababababx|434|CDcdcdcdx|64")
+	}},
 	{Prop: "C12", Name: "range-assign-form-with-underscore", Run: func() string {
 		v := jet.VarMap{}
 		v.Set("xs", []string{"a", "b"})
